@@ -41,7 +41,7 @@ pub struct ARun {
 pub fn fingerprint(s: &Session, acts: &[ActRef]) -> u64 {
     let mut t = String::new();
     for pid in s.engine.verif().cached_pids() {
-        if let Some(d) = s.dump(&pid) {
+        if let Some(d) = s.dump_light(&pid) {
             t.push_str(&canon_dump(&d));
         }
     }
